@@ -1,14 +1,14 @@
 #!/bin/sh
 # Builds the instrumenter and the driver from /verif sources, offline.
 set -e
-cd /verif
+cd "${VERIF_DIR:-/verif}"
 export GOFLAGS=-mod=mod GOPROXY=off GOSUMDB=off GOTOOLCHAIN=local PATH=/opt/veriftools/go1.26.8/bin:$PATH
 mkdir -p bin out/replays evidence
 (cd instr && go build -o ../bin/instr .)
 go build -o bin/check ./cmd/check
 # warm the build cache for the instrumented worker (dependencies: pion etc.)
 tmp=$(mktemp -d /tmp/verif-setup-XXXXXX)
-./bin/instr -repo /repo -out "$tmp/ov" -extra /verif/overlay -gobin /opt/veriftools/go1.26.8/bin
+./bin/instr -repo /repo -out "$tmp/ov" -extra "$PWD/overlay" -gobin /opt/veriftools/go1.26.8/bin
 go test -c -overlay "$tmp/ov/overlay.json" -o "$tmp/worker.test" ./worlds/ || { rm -rf "$tmp"; exit 1; }
 rm -rf "$tmp"
 echo "setup ok"
